@@ -57,4 +57,10 @@ CLAIMED["C10"] = {
     "technique": "Lean 4 proof (serializability of the lock-protocol model; soundness of a history checker) + concurrency campaign on real threads judged by the verified checker",
 }
 
+CLAIMED["C14"] = {
+    "text": "24 theorems (Lean) over a byte-level model of the JWK import/export glue: strict unpadded base64url (roundtrip, canonicity: decode s = some b -> encode b = s, output bound, over-long input), the member visitor and a byte-level model of serde-json-core's map protocol (order independence at import level, unknown members: refuted for the pinned visitor with a witness, proved for the repaired one, which is what the source-derived configuration now selects), public exports contain no private member and do not depend on the secret, RFC 7638 thumbprint member sets and order, import checks (d consistent with x/y, on-curve), byte imports: panic-free (the pinned tree's panic characterised exactly: EC algorithm and wrong length; refuted/partial/fixed variants), round trips, wrong length rejected, the missing oct import stated as a theorem. The model is executed against the real code on 7 789 quick cases (16 algorithms x member permutations, unknown members of 16 JSON shapes in every position, base64 corruptions, mismatched d/x/y, off-curve points, boundary scalars, every byte length 0..130 as secret/public input, non-JSON texts) and agrees on all; an independent Lean implementation of P-256/P-384/secp256k1 arithmetic checks the curve crates' results.",
+    "note": "Ed25519/X25519/BLS public-key derivation and point validation are taken from the real crates through a per-case table (trusted); SHA-256 of the thumbprint is checked by the harness's own implementation, the Lean model produces the hashed text. jwk_roundtrip through the byte-level parser is exercised by the oracle on every generated key, not proved (OPEN in Lemmas/Jwk.lean). Defects D3, D4 found and repaired (9039570, b3542f9); D15 (no oct import) and D21 (JSON escapes in member names/values rejected) are open known findings.",
+    "technique": "Lean 4 proof over a byte-level parser/codec model + differential correspondence run (7 789 cases quick)",
+}
+
 NOT_YET = {}
